@@ -14,8 +14,12 @@
    A <pipe|pump|valve> <tok>    -> the action `_read_control_line` builds from the third word: status <s> | speed <v> | setting <v> | none
    D <prefix tree: & | a>       -> `<conjs of the repaired INP writer (AND of OR-groups) over numbered atoms> ; <conjs in tree order (str(cond))>`
                                    e.g. `D | & a a a` -> `if:0 or:2 and:1 or:2 ; if:0 and:1 or:2`
+   S<US>line<US>line...         -> the first loop of `InpFile.read` on a whole file (lines separated by the unit separator
+                                   U+001F): `ok|err|end` then, per stored line in file order, <RS>section<US>line (RS = U+0002),
+                                   then <RS>#top<US>number of comment lines before the first header
    anything else                -> bad -/
 import WntrModel.Model.InpText
+import WntrModel.Gen.SchemaInp
 open Wntr.InpText
 
 def parseRat (s : String) : Option Rat :=
@@ -89,8 +93,17 @@ def feed (st : PState Nat Nat) (w : String) : Option (PState Nat Nat) :=
       | _ => stepR st (.and_, .act 0))
   else (kwLine w).map (stepR st)
 
+def us : String := String.singleton (Char.ofNat 31)
+def rs : String := String.singleton (Char.ofNat 2)
+
+def handleFile (body : String) : String :=
+  let st := Wntr.InpRead.read Wntr.InpSchema.Gen.inpSections ((body.splitOn us).map String.toList)
+  (if st.err then "err" else if st.done then "end" else "ok") ++
+    String.join (st.lines.map fun p => rs ++ p.1 ++ us ++ String.ofList p.2) ++ rs ++ "#top" ++ us ++ toString st.top.length
+
 def handle (line : String) : String :=
   let line := (line.splitOn "\n").headD ""
+  if line.startsWith ("S" ++ us) then handleFile (line.drop 2).toString else
   match (line.splitOn " ").filter (· ≠ "") with
   | ["T", s] =>
     match s.toInt? with
